@@ -83,6 +83,7 @@ type c07Case struct {
 	IBGP      bool
 	RR        bool
 	V6        bool
+	V6NoCap   bool // IPv6 is configured locally, the neighbour's OPEN does not carry the multiprotocol capability for it
 	Bystander bool
 	BySameAS  bool
 	ByLate    bool // the bystander establishes after A's first session did (its contributions are registered after A's)
@@ -93,7 +94,7 @@ type c07Case struct {
 
 func (c c07Case) String() string {
 	var sb strings.Builder
-	fmt.Fprintf(&sb, "ibgp=%v rr=%v v6=%v bystander=%v sameAS=%v late=%v fastKA=%v policy=%d", c.IBGP, c.RR, c.V6, c.Bystander, c.BySameAS, c.ByLate, c.FastKA, c.Policy)
+	fmt.Fprintf(&sb, "ibgp=%v rr=%v v6=%v(nocap=%v) bystander=%v sameAS=%v late=%v fastKA=%v policy=%d", c.IBGP, c.RR, c.V6, c.V6NoCap, c.Bystander, c.BySameAS, c.ByLate, c.FastKA, c.Policy)
 	for i, r := range c.Rounds {
 		fmt.Fprintf(&sb, " | round%d", i)
 		for _, u := range r.Upds {
@@ -117,6 +118,9 @@ var c07Gen = rapid.Custom(func(t *rapid.T) c07Case {
 		c.RR = rapid.Bool().Draw(t, "rr")
 	}
 	c.V6 = rapid.IntRange(0, 2).Draw(t, "v6") == 0
+	if c.V6 {
+		c.V6NoCap = rapid.IntRange(0, 2).Draw(t, "v6_nocap") == 0
+	}
 	c.Bystander = rapid.IntRange(0, 2).Draw(t, "bystander") != 0
 	if c.Bystander {
 		c.BySameAS = rapid.Bool().Draw(t, "sameAS")
@@ -406,7 +410,7 @@ func c07Malformed(n int, peerAS uint32) []byte {
 
 func (x *c07Run) establishA(hold uint16) (*kit.Conn, *FSM) {
 	caps := []kit.WCap{kit.CapASN4(x.peerAS)}
-	if x.c.V6 {
+	if x.c.V6 && !x.c.V6NoCap {
 		caps = append(caps, kit.CapMP(2, 1))
 	}
 	for try := 0; try < 4; try++ {
